@@ -77,8 +77,10 @@ class RigWorld(World):
 
 
 class SettleMonitor(Monitor):
-    def __init__(self, cfg):
+    def __init__(self, cfg, types=None, prefix='C02'):
         self.cfg = cfg
+        self.types = types
+        self.prefix = prefix
         self.init = False
         self.pre = None
         self.pushes = []
@@ -95,7 +97,7 @@ class SettleMonitor(Monitor):
         self.collections = 0
 
     def fail(self, what, msg, **sig):
-        raise Violation('C02.' + what, msg, **sig)
+        raise Violation(self.prefix + '.' + what, msg, **sig)
 
     def on_op(self, world, st, op):
         if not self.init:
@@ -125,7 +127,7 @@ class SettleMonitor(Monitor):
                         for k, p in enumerate(st.pots)]
                 self.pre = dict(live=live, shown=[list(st.get_up_cards(i)) for i in range(n)],
                                 boards=[list(st.get_board_cards(b)) for b in st.board_indices],
-                                pots=pots, types=[h.__name__ for h in st.hand_types],
+                                pots=pots, types=self.types or [h.__name__ for h in st.hand_types],
                                 uncollected=[Fraction(x) for x in self.bets])
             self.pushes.append(op)
 
